@@ -31,7 +31,9 @@ Apply(st, ev) ==
 Progs(st, c) == [n \in DOMAIN st.ctxs[c] |-> st.ctxs[c][n].tree]
 ExecOutcome(st, ev) ==
     IF ~(ev.n \in DOMAIN st.ctxs[ev.c]) THEN [o |-> Err("absent"), log |-> <<>>, lk |-> TRUE]
-    ELSE LET e == Eval([k |-> "id", n |-> ev.n], [Env0(st.binds[ev.b], Progs(st, ev.c), EmptyFn) EXCEPT !.u = 0])
+    ELSE \* the program of that name is run (a variable of the same name does not stand in for it), entered like a reference
+         LET e2 == [Env0(st.binds[ev.b], Progs(st, ev.c), EmptyFn) EXCEPT !.u = 1, !.h = 1, !.path = {<<ev.n, st.binds[ev.b]>>}]
+             e == AtDepth(e2, Eval(Progs(st, ev.c)[ev.n], e2))
          IN IF \E i \in 1..Len(e.log) : e.log[i] = "#depth" THEN [o |-> Weaken(e.o), log |-> <<>>, lk |-> FALSE] ELSE e
 
 (* what the harness can observe of the state: sources by name, values by name *)
